@@ -4,6 +4,8 @@ package errbase
 
 // Contracts for the deductive verifier in /verif (comment-only file; see /verif/DESIGN.md).
 
+// ---- visible cause structure ----
+
 //@ func UnwrapOnce
 //@   props C07 C08 C13 C14
 //@   ensures result == cause1(err)
@@ -16,3 +18,91 @@ package errbase
 //@   props C02 C08
 //@   requires err != nil
 //@   defines tmark(err)
+
+// ---- registries: a registered encoder/decoder is never nil (Register* delete on nil) ----
+
+//@ global invariant regs_nonnil: (forall k TypeKey :: leafDecoders.has(k) ==> leafDecoders[k] != nil) && (forall k TypeKey :: decoders.has(k) ==> decoders[k] != nil) && (forall k TypeKey :: multiCauseDecoders.has(k) ==> multiCauseDecoders[k] != nil) && (forall k TypeKey :: leafEncoders.has(k) ==> leafEncoders[k] != nil) && (forall k TypeKey :: encoders.has(k) ==> encoders[k] != nil)
+//@ global invariant regs_alloc: leafDecoders != nil && decoders != nil && multiCauseDecoders != nil && leafEncoders != nil && encoders != nil
+
+//@ global invariant warn_nonnil: warningFn != nil
+//@ func SetWarningFn
+//@   props C05
+//@   requires fn != nil
+//@   maintains warn_nonnil
+
+//@ func RegisterLeafDecoder
+//@   props C05
+//@   maintains regs_nonnil
+//@ func RegisterWrapperDecoder
+//@   props C05
+//@   maintains regs_nonnil
+//@ func RegisterMultiCauseDecoder
+//@   props C05
+//@   maintains regs_nonnil
+//@ func RegisterLeafEncoder
+//@   props C05
+//@   maintains regs_nonnil
+//@ func RegisterWrapperEncoderWithMessageType
+//@   props C05
+//@   maintains regs_nonnil
+
+// ---- decoding is total (C05) ----
+
+//@ spec func wrapperOf(e errorspb.EncodedError) *errorspb.EncodedWrapper = typeis(e.Error, *errorspb.EncodedError_Wrapper) ? e.Error.(*errorspb.EncodedError_Wrapper).Wrapper : nil
+//@ spec func leafOf(e errorspb.EncodedError) *errorspb.EncodedErrorLeaf = typeis(e.Error, *errorspb.EncodedError_Leaf) ? e.Error.(*errorspb.EncodedError_Leaf).Leaf : nil
+//@ spec func completeLeaf(l *errorspb.EncodedErrorLeaf) bool
+//@ unfold completeLeaf(l) = l != nil && (forall i int :: 0 <= i && i < len(l.MultierrorCauses) ==> l.MultierrorCauses[i] != nil && complete(deref(l.MultierrorCauses[i])))
+//@ spec func completeWrapper(w *errorspb.EncodedWrapper) bool
+//@ unfold completeWrapper(w) = w != nil && complete(w.Cause)
+//@ spec func complete(e errorspb.EncodedError) bool
+//@ unfold complete(e) = wrapperOf(e) != nil ? completeWrapper(wrapperOf(e)) : completeLeaf(leafOf(e))
+
+//@ func DecodeError
+//@   props C05 C01 C04
+//@   requires complete(enc)
+//@   ensures result != nil
+
+//@ func decodeLeaf
+//@   props C05 C01 C04
+//@   requires completeLeaf(enc)
+//@   ensures result != nil
+
+//@ func decodeWrapper
+//@   props C05 C01 C04
+//@   requires completeWrapper(enc)
+//@   ensures result != nil
+
+// ---- the opaque carrier types ----
+
+//@ type opaqueWrapper invariant self.cause != nil
+
+//@ method (*opaqueLeaf).Error
+//@   props C01 C04 C10
+//@   ensures result == self.msg
+//@ method (*opaqueWrapper).Cause
+//@   props C07 C04 C14
+//@   ensures result == self.cause
+//@ method (*opaqueWrapper).Unwrap
+//@   props C07 C04 C14
+//@   ensures result == self.cause
+//@ method (*opaqueLeafCauses).Unwrap
+//@   props C13 C04
+//@   ensures result == self.causes
+//@ method (*opaqueLeaf).SafeDetails
+//@   props C04 C03 C12
+//@   ensures result == self.details.ReportablePayload
+//@ method (*opaqueWrapper).SafeDetails
+//@   props C04 C03 C12
+//@   ensures result == self.details.ReportablePayload
+
+// ---- formatting entry points are handled modularly (their own contracts are under C09/C06) ----
+
+//@ func FormatError
+//@   props C09
+//@   requires err != nil
+//@ func FormatRedactableError
+//@   props C09 C06
+//@   requires err != nil
+
+//@ type OpaqueErrno invariant self.details != nil
+//@ type errorFormatter invariant self.err != nil
